@@ -109,8 +109,8 @@ func (rt *RoundTripper) cacheResponse(req *http.Request, resp *http.Response) {
 }
 
 // isCacheable reports whether the response to the given request may be looked up in, respectively
-// stored in the cache. A cache entry is identified by the URL, the method and the value of the
-// Authorization header only. Requests with a body (e.g. a token sent to an introspection endpoint)
+// stored in the cache. A cache entry is identified by the URL, the method and the header fields of the
+// request only. Requests with a body (e.g. a token sent to an introspection endpoint)
 // must therefore never be answered from the cache. That is in line with RFC 7234, which allows reusing
 // stored responses only for GET and HEAD requests.
 func isCacheable(req *http.Request) bool {
@@ -124,7 +124,21 @@ func cacheKey(req *http.Request) string {
 	hashx.WriteString(hash, "RFC 7234")
 	hashx.WriteString(hash, req.URL.String())
 	hashx.WriteString(hash, req.Method)
-	hashx.WriteString(hash, strings.TrimSpace(req.Header.Get("Authorization")))
+	// the header fields carry everything else the response may depend on: credentials (Authorization,
+	// api keys, cookies) as well as the values rendered or forwarded for the actual request.
+	hashx.WriteStringMap(hash, headerFields(req.Header))
 
 	return hex.EncodeToString(hash.Sum(nil))
+}
+
+// headerFields returns the header fields with multiple field lines of the same name combined into one
+// comma separated value (which does not change the semantics of the message, see RFC 7230, section 3.2.2).
+func headerFields(header http.Header) map[string]string {
+	fields := make(map[string]string, len(header))
+
+	for name, values := range header {
+		fields[name] = strings.Join(values, ", ")
+	}
+
+	return fields
 }
